@@ -80,7 +80,7 @@ PROP = {'suites': ['c19', 'c19lists', 'c19paths'],
          'values, claims and authorization-detail types stay constants of the harness. The list options are varied in suite c19lists only (fixed grants: authorization_code, implicit, '
          "client_credentials; profile openid); suite c19 keeps the harness's fixed lists. JAR / DPoP / CIBA-JAR signing algorithm lists and the JAR encryption lists are compared in the document and "
          "covered by the theorems but not probed with signed request objects / proofs (C07 / C06 probe those with the fixed ES256). The DCR gates that read the same lists are C12's (Dcr.validate "
-         'over dcfg). DCR has no handler model here (route table and metadata only); the jwt-bearer grant is probed on the Go side only. advertised_accepted is proved as a theorem for endpoints '
+         'over dcfg). DCR has no handler model here (route table and metadata only); the jwt-bearer grant is in the handler model (an advertised jwt-bearer grant answered unsupported_grant_type is clause 4 like every other grant), its probes are sent on the Go side. advertised_accepted is proved as a theorem for endpoints '
          '(routing), for client_credentials, for client-authentication algorithms and for encryption; for response types/modes/PKCE methods the theorem is that the gate consults exactly the '
          'advertised list (accepted_values_are_listed) and acceptance of whole flows is shown by the correspondence runs. Not flagged, reported: (1) userinfo is only encrypted for clients that also '
          'asked for a SIGNED userinfo response, and there is no default userinfo signing algorithm (WithUserInfoEncryption without WithUserInfoSignatureAlgs advertises '
